@@ -11,7 +11,7 @@ import (
 
 // C03Location: totality / locality / history-independence cases for the location family
 // (28-byte block, additional-information TLV, vendor extension items, 0x0704 and 0x0801 carriers).
-// Owned by the builder of C08; called from cmd/C03/main.go.
+// Owned by the builder of C03; called from cmd/C03/main.go.
 //
 // For every generated body of every carrier:
 //   - the real Parse + String on an exact-capacity copy under recover()        (op pXXXX, correspondence)
@@ -90,9 +90,6 @@ func C03Location(c *Ctx) {
 		}
 		// reused receiver: 1-3 earlier bodies (rich ones, sometimes the body itself or a failing one)
 		nseq++
-		if quick && nseq%2 == 0 && len(body) > 60 {
-			return
-		}
 		var prior []string
 		for i := 0; i < 1+rng.Intn(3); i++ {
 			switch rng.Intn(6) {
@@ -105,7 +102,16 @@ func C03Location(c *Ctx) {
 			}
 		}
 		sreq := "seq" + kind + " " + strings.Join(prior, " ") + " " + Hx(body)
-		if a3 := c.Do(sreq, len(body) >= minLen[kind]); a3 != ans {
+		// the direct comparison always; as a correspondence case one in three in the quick tier (the
+		// model's flag decoders make these the most expensive lines for the oracle)
+		var a3 string
+		if !quick || nseq%3 == 0 {
+			a3 = c.Do(sreq, len(body) >= minLen[kind])
+		} else {
+			a3 = RunOp(sreq)
+			c.Eval(sreq, len(body) >= minLen[kind])
+		}
+		if a3 != ans {
 			c.Violate(Violation{Signature: "C03/location-history-" + kind, What: "a reused receiver gives a different result than a fresh one",
 				Input: sreq, Observed: a3, Required: ans + "   (answer of a fresh receiver)"})
 		}
